@@ -40,7 +40,8 @@ DangerTexts == {CmText(d) : d \in AtomSeqs(TextLen) \ {<<>>}}
 \* attribute values: the quoting danger set
 Values == {<<>>, <<120>>, <<32>>, <<97, 32, 98>>, <<39>>, <<34>>, <<34, 39>>, <<61>>, <<60>>, <<62>>, <<96>>, <<38>>,
            <<38, 97, 109, 112, 59>>, <<97, 38, 98>>, <<38, 108, 116>>, <<233>>, <<128512>>, <<47>>, <<120, 47>>, <<10>>, <<9>>,
-           <<160>>, <<97, 61, 98>>, <<120, 62, 121>>, <<38, 35, 51, 56, 59>>, <<8232>>}
+           <<160>>, <<97, 61, 98>>, <<120, 62, 121>>, <<38, 35, 51, 56, 59>>, <<8232>>,
+           <<201, 120>>, <<201, 61>>, <<233, 120>>}      \* (capital E acute + alphanumeric / '=': the entity the ascii codec error handler writes must end in ';')
 FewValues == {<<>>, <<120>>, <<97, 32, 98>>, <<34>>, <<38>>, <<233>>}
 
 \* ---- themes ----
